@@ -247,6 +247,20 @@ CHECKS = {
   note='trusted: the probe program and readelf parsing in harness/checks/c16.py, gcc 12 of the sandbox; entry_point, '
        'rpath and Windows/macOS options are not probed',
   design='5/C16'),
+ 'C07': dict(
+  technique='TLA+ model of sources, headers, a mutable include relation and per-object fingerprints (Incr.tla); '
+            'TLC-generated edit/build histories (Incr_Gen.tla) replayed on real files with the real bfg9000, make / '
+            'reference ninja, gcc behind a logging wrapper and the real depfixer; every recorded step is validated '
+            'by stepping Incr.tla itself (Incr_Trace.tla)',
+  text='The trace specification re-uses the actions of Incr.tla: edits are replayed through the model, and for every '
+       'real build TLC compares the set of sources gcc was really asked to compile with the set of stale objects of '
+       'the model (exactly the objects whose source or transitive include closure changed), the program output with '
+       'the model\'s total, and requires the build to proceed, also after a no-longer-included header was deleted, '
+       'after clean, and on a no-op rebuild; header names contain blanks and Make-special characters as far as a '
+       'hand-written Makefile can consume gcc\'s own depfile for them.',
+  note='trusted: Incr.tla, the gcc logging wrapper, the reference-Makefile scope test (excluded names are listed in '
+       'the evidence), tick barrier, reference ninja for the Ninja backend',
+  design='5/C07'),
 }
 
 NOT_YET = {}
